@@ -149,7 +149,7 @@ void reg_st2tost2() {
     using T = TSC;
     st2tost2<N, T> r = mk_A<N>(in[0]) * mk_A<N>(in[1]);
     return fl(r);
-  });
+  }, N == 3 ? 1 : 0);  // 3D: executed in the quick tier, proved in the thorough tier
   reg("A_mul3", N, "AAA", 'A', [](const auto& in) {  // nested product expressions
     using T = TSC;
     st2tost2<N, T> r = mk_A<N>(in[0]) * mk_A<N>(in[1]) * mk_A<N>(in[2]);
@@ -161,7 +161,7 @@ void reg_st2tost2() {
     const auto b = mk_A<N>(in[1]);
     st2tost2<N, T> r = 2 * a - b / 3 + in[2][0] * (a * b);
     return fl(r);
-  });
+  }, N == 3 ? 1 : 0);  // 3D: executed in the quick tier, proved in the thorough tier
   reg("A_apply", N, "As", 's', [](const auto& in) {  // C * s
     using T = TSC;
     stensor<N, T> r = mk_A<N>(in[0]) * mk_s<N>(in[1]);
@@ -176,13 +176,13 @@ void reg_st2tost2() {
     using T = TSC;
     st2tost2<N, T> r = mk_s<N>(in[0]) ^ mk_s<N>(in[1]);
     return fl(r);
-  });
+  }, N == 3 ? 1 : 0);  // 3D: executed in the quick tier, proved in the thorough tier
   reg("A_transpose", N, "A", 'A', [](const auto& in) {
     using T = TSC;
     const auto a = mk_A<N>(in[0]);
     st2tost2<N, T> r = transpose(a);
     return fl(r);
-  });
+  }, N == 3 ? 1 : 0);  // 3D: executed in the quick tier, proved in the thorough tier
   reg("A_change_basis", N, "Ar", 'A', [](const auto& in) {
     using T = TSC;
     st2tost2<N, T> r = change_basis(mk_A<N>(in[0]), mk_r(in[1]));
@@ -192,12 +192,12 @@ void reg_st2tost2() {
     using T = TSC;
     st2tost2<N, T> r = push_forward(mk_A<N>(in[0]), mk_t<N>(in[1]));
     return fl(r);
-  });
+  }, N == 3 ? 1 : 0);  // 3D: executed in the quick tier, proved in the thorough tier
   reg("A_fromRotationMatrix", N, "r", 'A', [](const auto& in) {
     using T = TSC;
     st2tost2<N, T> r = st2tost2<N, T>::fromRotationMatrix(mk_r(in[0]));
     return fl(r);
-  });
+  }, N == 3 ? 1 : 0);  // 3D: executed in the quick tier, proved in the thorough tier
   reg("A_Id", N, "", 'A', [](const auto& in) { using T = TSC; return fl(st2tost2<N, T>(st2tost2<N, T>::Id())); });
   reg("A_IxI", N, "", 'A', [](const auto& in) { using T = TSC; return fl(st2tost2<N, T>(st2tost2<N, T>::IxI())); });
   reg("A_J", N, "", 'A', [](const auto& in) { using T = TSC; return fl(st2tost2<N, T>(st2tost2<N, T>::J())); });
@@ -222,12 +222,12 @@ void reg_st2tost2() {
         r.push_back((x + y) / 2 * w);
       }
     return r;
-  });
+  }, N == 3 ? 1 : 0);  // 3D: executed in the quick tier, proved in the thorough tier
   reg("A_dsquare", N, "s", 'A', [](const auto& in) {  // d(s.s)/ds
     using T = TSC;
     st2tost2<N, T> r = st2tost2<N, T>::dsquare(mk_s<N>(in[0]));
     return fl(r);
-  });
+  }, N == 3 ? 1 : 0);  // 3D: executed in the quick tier, proved in the thorough tier
   reg("A_stpd", N, "s", 'A', [](const auto& in) {  // d sym(a.b) / da at b
     using T = TSC;
     st2tost2<N, T> r = st2tost2<N, T>::stpd(mk_s<N>(in[0]));
@@ -246,7 +246,7 @@ void reg_t2tot2() {
     using T = TSC;
     t2tot2<N, T> r = mk_B<N>(in[0]) * mk_B<N>(in[1]);
     return fl(r);
-  });
+  }, N == 3 ? 1 : 0);  // 3D: executed in the quick tier, proved in the thorough tier
   reg("B_expr", N, "BBx", 'B', [](const auto& in) {
     using T = TSC;
     const auto a = mk_B<N>(in[0]);
@@ -273,17 +273,17 @@ void reg_t2tot2() {
     using T = TSC;
     t2tot2<N, T> r = t2tot2<N, T>::fromRotationMatrix(mk_r(in[0]));
     return fl(r);
-  });
+  }, N == 3 ? 1 : 0);  // 3D: executed in the quick tier, proved in the thorough tier
   reg("B_tpld", N, "t", 'B', [](const auto& in) {  // d(a.b)/da
     using T = TSC;
     t2tot2<N, T> r = t2tot2<N, T>::tpld(mk_t<N>(in[0]));
     return fl(r);
-  });
+  }, N == 3 ? 1 : 0);  // 3D: executed in the quick tier, proved in the thorough tier
   reg("B_tprd", N, "t", 'B', [](const auto& in) {  // d(a.b)/db
     using T = TSC;
     t2tot2<N, T> r = t2tot2<N, T>::tprd(mk_t<N>(in[0]));
     return fl(r);
-  });
+  }, N == 3 ? 1 : 0);  // 3D: executed in the quick tier, proved in the thorough tier
   reg("B_tpld2", N, "tB", 'B', [](const auto& in) {  // d(a.b)/da . C
     using T = TSC;
     t2tot2<N, T> r = t2tot2<N, T>::tpld(mk_t<N>(in[0]), mk_B<N>(in[1]));
@@ -305,7 +305,7 @@ void reg_t2tot2() {
     using T = TSC;
     t2tot2<N, T> r(mk_C<N>(in[0]));
     return fl(r);
-  });
+  }, N == 3 ? 1 : 0);  // 3D: executed in the quick tier, proved in the thorough tier
   reg("B_d2det", N, "t", 'B', [](const auto& in) {
     using T = TSC;
     t2tot2<N, T> r = computeDeterminantSecondDerivative(mk_t<N>(in[0]));
@@ -329,17 +329,17 @@ void reg_mixed() {
     using T = TSC;
     t2tost2<N, T> r = mk_A<N>(in[0]) * mk_C<N>(in[1]);
     return fl(r);
-  });
+  }, N == 3 ? 1 : 0);  // 3D: executed in the quick tier, proved in the thorough tier
   reg("CB_mul", N, "CB", 'C', [](const auto& in) {
     using T = TSC;
     t2tost2<N, T> r = mk_C<N>(in[0]) * mk_B<N>(in[1]);
     return fl(r);
-  });
+  }, N == 3 ? 1 : 0);  // 3D: executed in the quick tier, proved in the thorough tier
   reg("CD_mul", N, "CD", 'A', [](const auto& in) {
     using T = TSC;
     st2tost2<N, T> r = mk_C<N>(in[0]) * mk_D<N>(in[1]);
     return fl(r);
-  });
+  }, N == 3 ? 1 : 0);  // 3D: executed in the quick tier, proved in the thorough tier
   reg("DC_mul", N, "DC", 'B', [](const auto& in) {
     using T = TSC;
     t2tot2<N, T> r = mk_D<N>(in[0]) * mk_C<N>(in[1]);
@@ -349,7 +349,7 @@ void reg_mixed() {
     using T = TSC;
     st2tot2<N, T> r = mk_D<N>(in[0]) * mk_A<N>(in[1]);
     return fl(r);
-  });
+  }, N == 3 ? 1 : 0);  // 3D: executed in the quick tier, proved in the thorough tier
   reg("BD_mul", N, "BD", 'D', [](const auto& in) {
     using T = TSC;
     st2tot2<N, T> r = mk_B<N>(in[0]) * mk_D<N>(in[1]);
@@ -364,27 +364,27 @@ void reg_mixed() {
     using T = TSC;
     t2tost2<N, T> r = t2tost2<N, T>::dCdF(mk_t<N>(in[0]));
     return fl(r);
-  });
+  }, N == 3 ? 1 : 0);  // 3D: executed in the quick tier, proved in the thorough tier
   reg("C_dBdF", N, "t", 'C', [](const auto& in) {  // d(F F^T)/dF
     using T = TSC;
     t2tost2<N, T> r = t2tost2<N, T>::dBdF(mk_t<N>(in[0]));
     return fl(r);
-  });
+  }, N == 3 ? 1 : 0);  // 3D: executed in the quick tier, proved in the thorough tier
   reg("C_convertToT2toST2", N, "B", 'C', [](const auto& in) {  // symmetric part of the values
     using T = TSC;
     t2tost2<N, T> r = convertToT2toST2(mk_B<N>(in[0]));
     return fl(r);
-  });
+  }, N == 3 ? 1 : 0);  // 3D: executed in the quick tier, proved in the thorough tier
   reg("D_tpld", N, "s", 'D', [](const auto& in) {  // d(a.b)/da restricted to symmetric a, at symmetric b
     using T = TSC;
     st2tot2<N, T> r = st2tot2<N, T>::tpld(mk_s<N>(in[0]));
     return fl(r);
-  });
+  }, N == 3 ? 1 : 0);  // 3D: executed in the quick tier, proved in the thorough tier
   reg("D_tprd", N, "s", 'D', [](const auto& in) {
     using T = TSC;
     st2tot2<N, T> r = st2tot2<N, T>::tprd(mk_s<N>(in[0]));
     return fl(r);
-  });
+  }, N == 3 ? 1 : 0);  // 3D: executed in the quick tier, proved in the thorough tier
 }
 
 #if TT_GROUP == 4
@@ -454,7 +454,7 @@ void reg_ext() {
     stensor<N, T> U;
     polar_decomposition(R, U, mk_t<N>(in[0]));
     return fl(R);
-  }, 0, HP);
+  }, N == 3 ? 1 : 0, HP);
   set_prep(polar_prep<N>);
   // ---- remaining products / dyadic products / linear combinations of the mixed kinds
   reg("C_lapply", N, "sC", 't', [](const auto& in) {  // s | C  (s : C, a tensor)
@@ -471,26 +471,26 @@ void reg_ext() {
     using T = TSC;
     t2tost2<N, T> r = mk_s<N>(in[0]) ^ mk_t<N>(in[1]);
     return fl(r);
-  });
+  }, N == 3 ? 1 : 0);  // 3D: executed in the quick tier, proved in the thorough tier
   reg("ts_otimes", N, "ts", 'D', [](const auto& in) {  // t ^ s
     using T = TSC;
     st2tot2<N, T> r = mk_t<N>(in[0]) ^ mk_s<N>(in[1]);
     return fl(r);
-  });
+  }, N == 3 ? 1 : 0);  // 3D: executed in the quick tier, proved in the thorough tier
   reg("C_expr", N, "CCx", 'C', [](const auto& in) {
     using T = TSC;
     const auto a = mk_C<N>(in[0]);
     const auto b = mk_C<N>(in[1]);
     t2tost2<N, T> r = 2 * a - b / 3 + in[2][0] * (-a);
     return fl(r);
-  });
+  }, N == 3 ? 1 : 0);  // 3D: executed in the quick tier, proved in the thorough tier
   reg("D_expr", N, "DDx", 'D', [](const auto& in) {
     using T = TSC;
     const auto a = mk_D<N>(in[0]);
     const auto b = mk_D<N>(in[1]);
     st2tot2<N, T> r = 2 * a - b / 3 + in[2][0] * (-a);
     return fl(r);
-  });
+  }, N == 3 ? 1 : 0);  // 3D: executed in the quick tier, proved in the thorough tier
   reg("A_dsquare2", N, "sA", 'A', [](const auto& in) {  // d(s.s)/ds . C
     using T = TSC;
     st2tost2<N, T> r = st2tost2<N, T>::dsquare(mk_s<N>(in[0]), mk_A<N>(in[1]));
@@ -510,12 +510,52 @@ void reg_ext() {
     using T = TSC;
     st2tost2<N, T> r = computeDeviatorDeterminantSecondDerivative(mk_s<N>(in[0]));
     return fl(r);
-  });
+  }, 1);
   reg("A_pull_back", N, "At", 'A', [](const auto& in) {  // push_forward by F^-1
     using T = TSC;
     st2tost2<N, T> r = pull_back(mk_A<N>(in[0]), mk_t<N>(in[1]));
     return fl(r);
-  }, 1, "det2 (full_t $N b) <> 0", N != 3);  // 3D: execution only (push_forward and invert are both proved in 3D)
+  }, 1, "det2 (full_t $N b) <> 0", false);  // execution only (= push_forward of invert, both proved for all N; the generic closing tactic does not end on the composition)
+  // ---- invert / det of fourth-order tensors: TinyMatrixInvert / LU with partial pivoting (comparisons: not traceable as one
+  // expression; the pivoting paths of TinyMatrixInvert<1,2,3> are proved under C07).  Double only: executed against the
+  // exact rational inverse / determinant (specnum.py, fractions) on well-conditioned matrices
+  auto shift = [](In<double>& in, symv::Rng& rng, int) {
+    const int n = static_cast<int>(std::lround(std::sqrt(double(in[0].size()))));
+    double m = 0;
+    for (double x : in[0]) m = std::max(m, std::fabs(x));
+    for (int i = 0; i < n; ++i) in[0][i * n + i] += (rng.below(2) ? 1 : -1) * (n + 1) * m;  // diagonally dominant
+  };
+  reg("A_invert", N, "A", 'A', [](const auto& in) {
+    using T = TSC;
+    if constexpr (std::is_same_v<T, double>) {
+      st2tost2<N, T> r = invert(mk_A<N>(in[0]));
+      return fl(r);
+    } else {
+      return V<T>{};
+    }
+  }, 8, "", false);
+  set_prep(shift);
+  reg("A_invert_rt", N, "A", 'A', [](const auto& in) {  // A * invert(A) = Id (symmetric identity)
+    using T = TSC;
+    if constexpr (std::is_same_v<T, double>) {
+      const auto a = mk_A<N>(in[0]);
+      st2tost2<N, T> r = a * invert(a);
+      return fl(r);
+    } else {
+      return V<T>{};
+    }
+  }, 8, "", false);
+  set_prep(shift);
+  reg("A_det", N, "A", 'x', [](const auto& in) {
+    using T = TSC;
+    if constexpr (std::is_same_v<T, double>) return V<T>{det(mk_A<N>(in[0]))};
+    else return V<T>{};
+  }, 8, "", false);
+  reg("B_det", N, "B", 'x', [](const auto& in) {
+    using T = TSC;
+    if constexpr (std::is_same_v<T, double>) return V<T>{det(mk_B<N>(in[0]))};
+    else return V<T>{};
+  }, 8, "", false);
   reg("t_fromFortran", N, "m", 't', [](const auto& in) {  // tensor::buildFromFortranMatrix (column-major 3x3)
     using T = TSC;
     T p[9];
